@@ -283,7 +283,7 @@ def check(run):
             if so != "missing_repodata":
                 write(rp, b"{ nope" if so == "bad_repodata" else doc)
             if so != "missing_key_file":
-                with open(kp, "w") as f:
+                with open(os.open(kp, os.O_WRONLY | os.O_CREAT | os.O_TRUNC, 0o600), "w") as f:      # owner-only, as an operator would keep a private key
                     f.write("this is not a key\n" if so == "bad_key_file" else r2.choice([seed.hex(), seed.hex().upper() + "\n", "  " + seed.hex()]))
             before = open(rp, "rb").read() if os.path.exists(rp) else None
             status, text = run_entry(entry, ["sign-artifacts", rp, kp], wd)
